@@ -2,14 +2,14 @@
 from . import common as C
 
 LEAN_MODULE = "Urandom.Props.C10"
-RULE = ("requests: every generator (Xoshiro256, SplitMix64, Wyrand, ChaCha8/12/20, Mock) x destination lengths 0..600 (+4 KiB) x start offsets 0..15 inside a larger arena "
+RULE = ("requests: every generator (Xoshiro256, SplitMix64, Wyrand, ChaCha8/12/20, Mock, System<N> over the scripted entropy source) x destination lengths 0..600 (+4 KiB) x start offsets 0..15 inside a larger arena "
         "x element types u8/u16/u32/u64/u128/[u8;3]/[u32;5] x fill_bytes / fill_bytes_uninit / random_bytes / io::Read::read / read_exact, after a random prefix of draws; "
         "each case runs twice on canary backgrounds 0x00 and 0xFF: bytes, canaries, full initialisation, reported length and the next draw are compared with the model. "
         "non-trivial = length > 0; distinct = distinct request line")
 ASSUMPTIONS = ["writes are observed through a canary-framed arena (64 bytes each side) and two backgrounds; thorough runs repeat a subset under Miri (supporting evidence only)"]
 
 ELEMS = {"u8": (1, 1), "u16": (2, 2), "u32": (4, 4), "u64": (8, 8), "u128": (16, 16), "a3u8": (3, 1), "a5u32": (20, 4)}
-GENS = ["xoshiro", "splitmix", "wyrand", "chacha8", "chacha12", "chacha20", "mock"]
+GENS = ["xoshiro", "splitmix", "wyrand", "chacha8", "chacha12", "chacha20", "mock", "system"]
 
 
 def length(r):
@@ -32,7 +32,7 @@ def generate(r, tier, build):
         gen = r.choice(GENS)
         api = r.choice(["fill_bytes", "fill_bytes", "fill_bytes_uninit", "random_bytes", "read", "read_exact"])
         pre = [] if gen == "mock" else [r.choice(["u32", "u64", "fill:3", "fill:250", "fill:9", "jump"]) for _ in range(r.below(4))]
-        src = "words=%s" % ",".join(str(r.edge64()) for _ in range(r.choice([0, 1, 2, 3, 5, 80, 600]))) if gen == "mock" else "seed=%d" % r.edge64()
+        src = "words=%s" % ",".join(str(r.edge64()) for _ in range(r.choice([0, 1, 2, 3, 5, 80, 600]))) if gen == "mock" else "n=%d" % r.choice([2, 4, 31, 31, 64]) if gen == "system" else "seed=%d" % r.edge64()
         if api == "random_bytes":
             reqs.append("fillb gen=%s %s api=random_bytes elem=%s pre=%s" % (gen, src, r.choice(["rb0", "rb1", "rb3", "rb8", "rb13", "rb20", "rb32", "rb300"]), ",".join(pre)))
             continue
@@ -49,7 +49,9 @@ def corpus(build):
     return ["fillb gen=xoshiro seed=0 api=fill_bytes elem=u8 off=0 count=0 pre=",
             "fillb gen=chacha20 seed=0 api=fill_bytes elem=u8 off=1 count=256 pre=u32",
             "fillb gen=chacha8 seed=0 api=read_exact elem=u8 off=15 count=513 pre=fill:250",
-            "fillb gen=mock words=1,2 api=fill_bytes elem=u8 off=0 count=17 pre="]
+            "fillb gen=mock words=1,2 api=fill_bytes elem=u8 off=0 count=17 pre=",
+            "fillb gen=system n=31 api=fill_bytes elem=u8 off=3 count=257 pre=u32", "fillb gen=system n=4 api=read elem=u8 off=0 count=700 pre=",
+            "fillb gen=system n=31 api=fill_bytes_uninit elem=u64 off=8 count=33 pre=u64,fill:3"]
 
 
 def classify(req, model):
